@@ -1,14 +1,16 @@
 (* C17 — concurrent edits to separate parts of a document commute after rebasing.
-   Theorem for pairs of replace steps (what every deletion, insertion, paste, split and join compiles to):
-   for every schema, valid document and steps a = replace [f1,t1) by s1, b = replace [f2,t2) by s2 with at
-   least one untouched token between them (t1 < f2) that both apply to the document:
-     - rebasing a over b's map gives a itself, rebasing b over a's map shifts it by a's size change;
-       neither is dropped (Step.map returns a step);
-     - if both orders apply, the two results have the same token sequence.
-   Hypotheses: both slices OpenOK (valid nodes off their open sides), so that the intermediate documents
-   are valid.  Third theorem: a replace step and a node-level step (attribute, add / remove node mark) behind it.
-   That both orders do apply, and the pairs involving replace-around and mark steps, are evaluated per case by
-   Corr.C17. *)
+   Theorems, for every schema, valid document and pair of steps a, b that both apply to it and touch parts separated by at
+   least one untouched token: rebasing each over the other's map never drops it (Step.map returns the step itself, or the
+   step shifted by the other's size change), and if both orders apply the two results have the same token sequence (for
+   replace steps in normal form: equal documents).  One theorem per pair of step kinds:
+     replace / replace; replace / node-level step (attribute, add / remove node mark), either order;
+     mark / mark; mark / replace (a mark step BEHIND a replace or replace-around step under the hypothesis that the chain of
+     nodes open at the end of the edited range is unchanged - false for joins: the recorded finding);
+     node-level / mark; node-level / node-level;
+     replace / replace-around, either order; replace-around / replace-around; mark / replace-around, either order;
+     node-level / replace-around: in front, behind, and addressing a node strictly inside the kept gap.
+   Hypotheses: slices OpenOK / of the claimed shape, so that the intermediate documents are valid.
+   That both orders DO apply is evaluated per case by Corr.C17 (no success-direction theorem for nested replaces). *)
 From Coq Require Import List Arith ZArith.
 From PM Require Import Model.Data Model.Mark Model.Tree Model.StepMap Model.Step Spec.Tokens
   Proofs.ReplaceValid Proofs.SliceSides Proofs.TokenBasics Proofs.ReplaceTokens Proofs.SliceShape Proofs.TokenLaws
